@@ -245,10 +245,19 @@ func durSx(p *ical.Prop) string {
 }
 
 // independentInstances computes the instance starts of the bounded family
-// (FREQ=DAILY|WEEKLY[;COUNT<=10][;INTERVAL=n], fixed duration, UTC) without rrule-go;
-// a rule without COUNT does not end and is followed up to the horizon.
-func independentInstances(rule string, dtstart int64, horizon int64) (out []int64, unending bool, ok bool) {
-	var period, interval, count int64 = 0, 1, 0
+// (FREQ=DAILY|WEEKLY[;BYDAY=..]|MONTHLY[;COUNT<=10][;INTERVAL=n]) without rrule-go, as
+// RFC 5545 defines recurrence: on the wall clock of DTSTART's zone.  The k-th candidate
+// is DTSTART's local date moved by k*INTERVAL days, weeks (BYDAY: the listed weekdays of
+// those weeks, weeks starting on Monday, from DTSTART on) or months (a day the month does
+// not have is skipped), at DTSTART's local time of day, read in DTSTART's location with
+// time.Date.  A rule without COUNT does not end and is followed up to the horizon.
+// Not in the family (ok = false): anything else in the rule, a BYDAY that does not list
+// DTSTART's weekday, and a local time of day that some candidate date does not have
+// (the hour skipped when daylight saving time starts).
+func independentInstances(rule string, dt time.Time, horizon int64) (out []int64, unending bool, ok bool) {
+	var freq string
+	var interval, count int64 = 1, 0
+	var byday []int // 0 = Monday
 	for _, part := range strings.Split(rule, ";") {
 		kv := strings.SplitN(part, "=", 2)
 		if len(kv) != 2 {
@@ -256,11 +265,9 @@ func independentInstances(rule string, dtstart int64, horizon int64) (out []int6
 		}
 		switch strings.ToUpper(kv[0]) {
 		case "FREQ":
-			switch strings.ToUpper(kv[1]) {
-			case "DAILY":
-				period = 86400
-			case "WEEKLY":
-				period = 7 * 86400
+			switch f := strings.ToUpper(kv[1]); f {
+			case "DAILY", "WEEKLY", "MONTHLY":
+				freq = f
 			default:
 				return nil, false, false
 			}
@@ -276,23 +283,90 @@ func independentInstances(rule string, dtstart int64, horizon int64) (out []int6
 				return nil, false, false
 			}
 			interval = n
+		case "BYDAY":
+			for _, d := range strings.Split(strings.ToUpper(kv[1]), ",") {
+				i := strings.Index("MO,TU,WE,TH,FR,SA,SU", d)
+				if len(d) != 2 || i < 0 || i%3 != 0 {
+					return nil, false, false
+				}
+				byday = append(byday, i/3)
+			}
 		default:
 			return nil, false, false
 		}
 	}
-	if period == 0 {
+	if freq == "" || (byday != nil && freq != "WEEKLY") {
 		return nil, false, false
 	}
-	if count == 0 {
-		for t := dtstart; t <= horizon; t += interval * period {
-			out = append(out, t)
+	loc := dt.Location()
+	y, mo, d := dt.Date()
+	hh, mi, ss := dt.Clock()
+	at := func(year int, month time.Month, day int) (time.Time, bool) {
+		t := time.Date(year, month, day, hh, mi, ss, 0, loc)
+		h2, m2, s2 := t.Clock()
+		return t, h2 == hh && m2 == mi && s2 == ss
+	}
+	wd := (int(dt.Weekday()) + 6) % 7 // Monday = 0
+	if byday != nil {
+		sort.Ints(byday)
+		listed := false
+		for _, b := range byday {
+			if b == wd {
+				listed = true
+			}
 		}
-		return out, true, true
+		if !listed {
+			return nil, false, false
+		}
 	}
-	for k := int64(0); k < count; k++ {
-		out = append(out, dtstart+k*interval*period)
+	n := int(interval)
+	done := func() bool { return count > 0 && int64(len(out)) >= count }
+	add := func(t time.Time, clockOK bool) bool { // false: stop
+		if !clockOK {
+			ok = false
+			return false
+		}
+		if count == 0 && t.Unix() > horizon {
+			return false
+		}
+		out = append(out, t.Unix())
+		return !done()
 	}
-	return out, false, true
+	ok = true
+	for k := 0; k < 100000 && ok; k++ {
+		more := true
+		switch {
+		case freq == "DAILY":
+			more = add(at(y, mo, d+k*n))
+		case freq == "WEEKLY" && byday == nil:
+			more = add(at(y, mo, d+7*k*n))
+		case freq == "WEEKLY":
+			for _, b := range byday {
+				day := d - wd + 7*k*n + b
+				if day < d {
+					continue
+				}
+				if more = add(at(y, mo, day)); !more {
+					break
+				}
+			}
+		case freq == "MONTHLY":
+			t, clockOK := at(y, mo+time.Month(k*n), d)
+			if t.Day() != d {
+				// the month has no such day
+				more = !(count == 0 && t.Unix() > horizon)
+			} else {
+				more = add(t, clockOK)
+			}
+		}
+		if !more {
+			break
+		}
+	}
+	if !ok {
+		return nil, false, false
+	}
+	return out, count == 0, true
 }
 
 var outsideFamily int64
@@ -318,9 +392,29 @@ func recSx(c *ical.Component, trs []trange) string {
 			}
 		}
 	}
-	horizon += horizonMargin
 	ropt, _ := c.Props.RecurrenceRule()
 	unending := ropt != nil && ropt.Count == 0 && ropt.Until.IsZero()
+	// ... by at least two periods of the rule, so that an instance after every bound is listed
+	margin := int64(horizonMargin)
+	if ropt != nil {
+		days := int64(1)
+		switch ropt.Freq.String() {
+		case "YEARLY":
+			days = 366
+		case "MONTHLY":
+			days = 31
+		case "WEEKLY":
+			days = 7
+		}
+		interval := int64(ropt.Interval)
+		if interval < 1 {
+			interval = 1
+		}
+		if m := (2*interval*days + 10) * 86400; m > margin {
+			margin = m
+		}
+	}
+	horizon += margin
 
 	// what the real iterator yields
 	var seq []int64
@@ -338,7 +432,7 @@ func recSx(c *ical.Component, trs []trange) string {
 	}
 
 	// the instances, computed independently
-	insts, insUnending, ok := independentInstances(c.Props.Get(ical.PropRecurrenceRule).Value, dt.Unix(), horizon)
+	insts, insUnending, ok := independentInstances(c.Props.Get(ical.PropRecurrenceRule).Value, dt, horizon)
 	if c.Props.Get(ical.PropDateTimeStart) == nil {
 		// not in the family: rrule-go starts a rule without DTSTART at time.Now()
 		ok = false
@@ -1017,6 +1111,102 @@ func recurringGrid(emit func(string)) {
 	}
 }
 
+// recurring events on the wall clock of a time zone: series that cross a daylight-saving change of
+// the zone (both hemispheres, and zones without one), local times of day whose UTC date differs
+// from the local date, DAILY / WEEKLY (also BYDAY) / MONTHLY, probed around every instance and one
+// hour before and after it
+func tzGrid(emit func(string)) {
+	type zone struct {
+		name    string
+		changes [][3]int // local dates of a change of the UTC offset (or any date, for zones without)
+	}
+	zones := []zone{
+		{"America/Los_Angeles", [][3]int{{2020, 3, 8}, {2020, 11, 1}}},
+		{"Europe/Berlin", [][3]int{{2020, 3, 29}, {2020, 10, 25}}},
+		{"Australia/Sydney", [][3]int{{2020, 4, 5}, {2020, 10, 4}}},
+		{"Asia/Kolkata", [][3]int{{2020, 3, 29}}},
+		{"UTC", [][3]int{{2020, 3, 29}}},
+	}
+	days := []string{"MO", "TU", "WE", "TH", "FR", "SA", "SU"}
+	const local = "20060102T150405"
+	for _, z := range zones {
+		loc, err := time.LoadLocation(z.name)
+		if err != nil {
+			panic("harness: time zone database: " + err.Error())
+		}
+		tz := Q("TZID", z.name)
+		for _, ch := range z.changes {
+			for _, clock := range [][2]int{{9, 0}, {20, 0}, {0, 30}} {
+				on := func(dayOffset int) time.Time {
+					return time.Date(ch[0], time.Month(ch[1]), ch[2]+dayOffset, clock[0], clock[1], 0, 0, loc)
+				}
+				type series struct {
+					start time.Time
+					rule  string
+				}
+				w := on(-7)
+				wd := (int(w.Weekday()) + 6) % 7
+				list := []series{
+					{on(-1), "FREQ=DAILY;COUNT=3"},
+					{on(-2), "FREQ=DAILY;COUNT=3;INTERVAL=2"},
+					{w, "FREQ=WEEKLY;COUNT=3"},
+					{w, "FREQ=WEEKLY;COUNT=4;BYDAY=" + days[wd] + "," + days[(wd+2)%7]},
+					{w, "FREQ=WEEKLY;COUNT=3;INTERVAL=2;BYDAY=" + days[(wd+6)%7] + "," + days[wd]},
+					{time.Date(ch[0], time.Month(ch[1]-1), 15, clock[0], clock[1], 0, 0, loc), "FREQ=MONTHLY;COUNT=3"},
+					{time.Date(ch[0], time.January, 31, clock[0], clock[1], 0, 0, loc), "FREQ=MONTHLY;COUNT=3"},
+					{on(-1), "FREQ=DAILY"},
+				}
+				for si, sr := range list {
+					for kind := 0; kind < 3; kind++ {
+						for _, exFirst := range []bool{false, true} {
+							if exFirst && (si != 0 || kind == 2) {
+								continue
+							}
+							if si == len(list)-1 && kind != 1 {
+								continue // the rule that does not end: one extent is enough
+							}
+							props := []gprop{P("DTSTART", sr.start.Format(local), tz)}
+							switch kind {
+							case 1:
+								props = append(props, P("DURATION", "PT1H"))
+							case 2:
+								props = append(props, P("DTEND", sr.start.Add(2*time.Hour).In(loc).Format(local), tz))
+							}
+							props = append(props, P("RRULE", sr.rule))
+							if exFirst {
+								props = append(props, P("EXDATE", sr.start.Format(local), tz))
+							}
+							text := cal(gcomp{name: "VEVENT", props: props}).text()
+							insts, _, ok := independentInstances(sr.rule, sr.start, sr.start.Unix()+5*86400)
+							if !ok {
+								panic("harness: tzGrid series outside the family: " + sr.rule)
+							}
+							seen := map[int64]bool{}
+							var pts []int64
+							for _, i := range insts {
+								for _, p := range []int64{i - 3600, i, i + 3600, i + 7200} {
+									if !seen[p] {
+										seen[p] = true
+										pts = append(pts, p)
+									}
+								}
+							}
+							for _, p := range pts {
+								for _, tr := range []trange{
+									{tAt(p), tAt(p + 1)}, {tAt(p), tAt(p + 3600)}, {tAt(p - 1800), tAt(p)},
+									{tAt(p), time.Time{}}, {tAt(p + 1), time.Time{}}, {time.Time{}, tAt(p)}, {time.Time{}, tAt(p + 1)},
+								} {
+									emit(matchIn(eventFilter(tr), text))
+								}
+							}
+						}
+					}
+				}
+			}
+		}
+	}
+}
+
 // ---- random part
 
 type gen struct{ r *hx.Rand }
@@ -1101,11 +1291,15 @@ func (g *gen) randComp(depth int, malformed bool) gcomp {
 			c.props = append(c.props, P("DURATION", dt))
 		}
 		if g.r.Chance(1, 3) {
-			// recurring, bounded family: UTC date-time or all-day start
+			// recurring, bounded family: UTC date-time, all-day or TZID start
 			st := P("DTSTART", utc(g.instant()))
 			if g.r.Chance(1, 5) {
 				z := g.instant()
 				st = P("DTSTART", day(z-z%86400), Q("VALUE", "DATE"))
+			} else if g.r.Chance(1, 4) {
+				// on the wall clock of a zone (Los Angeles changes its offset on 8 March 2020)
+				st = P("DTSTART", time.Unix(g.instant(), 0).UTC().Format("20060102T150405"),
+					Q("TZID", g.r.Pick([]string{"America/Los_Angeles", "Europe/Berlin", "Australia/Sydney", "Asia/Kolkata"})))
 			}
 			var rest []gprop
 			for _, p := range c.props {
@@ -1117,7 +1311,7 @@ func (g *gen) randComp(depth int, malformed bool) gcomp {
 			if malformed && g.r.Chance(1, 8) {
 				c.props = rest // a rule without DTSTART: go-ical starts it at the zero time
 			}
-			freq := g.r.Pick([]string{"DAILY", "WEEKLY"})
+			freq := g.r.Pick([]string{"DAILY", "DAILY", "WEEKLY", "WEEKLY", "MONTHLY"})
 			rule := fmt.Sprintf("FREQ=%s;COUNT=%d", freq, 1+g.r.Intn(10))
 			if g.r.Chance(1, 6) {
 				rule = "FREQ=" + freq // a rule that does not end
@@ -1417,6 +1611,7 @@ func main() {
 	samples(emit)
 	timeGrid(emit)
 	recurringGrid(emit)
+	tzGrid(emit)
 	filterUniverse(emit)
 	structuralUniverse(thorough, emit)
 	randomPart(nRandom, emit)
